@@ -153,9 +153,9 @@ def jobs_for(tier, seed):
             j = {"spec": s, "metrics": m, "idx": idx, "name": s["name"]}
             if n <= lim_small:
                 j["timeout"] = 120 if tier == "quick" else 600
-            elif n <= lim_big and nbig < (8 if tier == "quick" else 24):
+            elif n <= lim_big and nbig < (4 if tier == "quick" else 24):
                 nbig += 1
-                j["timeout"] = 200 if tier == "quick" else 900
+                j["timeout"] = 150 if tier == "quick" else 900
             else:
                 j["concrete_only"] = True
             j["n"] = n
